@@ -193,6 +193,10 @@ structure Chip where
   winLen : Nat := 0
   winFirst : Byte := 0#8
   winLast : Byte := 0#8
+  /-- after power-on the chip is in I2C mode until the first rising edge of chip-select;
+      data clocked out over SPI before that is not valid: it reads as `dummy` -/
+  spiMode : Bool := false
+  dummy : Byte := 0#8
 
 def Chip.dataAt (c : Chip) (a : Nat) : Byte :=
   if 4 ≤ a ∧ a ≤ 9 then
@@ -222,6 +226,7 @@ def Chip.clock (c : Chip) (b : Byte) : Chip × Byte :=
     -- read: address byte, dummy byte, then data
     let a0 := (c.winFirst &&& 0x7F#8).toNat
     let out := if c.winLen = 1 then 0#8
+               else if !c.spiMode then c.dummy
                else if a0 = 0x14 then c.fifo.getD (c.winLen - 2) 0#8
                else c.dataAt (a0 + (c.winLen - 2))
     ({ c with winLen := c.winLen + 1, winLast := b }, out)
@@ -256,7 +261,7 @@ def Chip.raw (c : Chip) : Raw → Chip × List Byte
   | .i2cWriteRead _ [a] n => (c, c.burst a.toNat n)
   | .i2cWriteRead _ _ n => (c, List.replicate n 0#8)
   | .csLow => (if c.csHigh then { c with csHigh := false, winLen := 0 } else c, [])
-  | .csHigh => ({ c with csHigh := true, winLen := 0 }, [])
+  | .csHigh => ({ c with csHigh := true, winLen := 0, spiMode := true }, [])
   | .spiWrite bytes => ((c.clockAll bytes).1, [])
   | .spiTransfer bytes => c.clockAll bytes
   | .delay _ => (c, [])
@@ -399,7 +404,8 @@ def runCtor (dev : Nat) (fails : Nat → Bool) (chip : Chip) (c : Ctor) : List J
   | (j, w', .ok reads) => (j, w', finishOutcome (c.finish reads))
 
 /-- a chip after power-on holding the given id / data registers -/
-def Chip.powerOn (low : Nat → Byte) (pos neg fifo : List Byte) : Chip :=
-  { regs := fun a => if a ≥ 0x19 then DS.resetVal a else low a, pos := pos, neg := neg, fifo := fifo }
+def Chip.powerOn (low : Nat → Byte) (pos neg fifo : List Byte) (dummy : Byte := 0#8) : Chip :=
+  { regs := fun a => if a ≥ 0x19 then DS.resetVal a else low a, pos := pos, neg := neg, fifo := fifo,
+    dummy := dummy }
 
 end Bma400
